@@ -11,6 +11,7 @@ package main
 //	slices.Delete(s, i, j)                           -> append(s[:i], s[j:]...)
 //	slices.Concat(lit, s)                            -> append(lit, s...)            (lit a composite literal)
 //	x = cmp.Or(x, d)                                 -> if x == 0 { x = d }          (x of an integer type)
+//	K == x, K < x (K a constant, nil, or pkg.Var)     -> x == K, x > K                (the constant stands on the right)
 //	return cmp.Or(f(), g())  (result type error)     -> for _, e := range []error{f(), g()} { if e != nil { return e } }; return nil
 //
 // Every rewrite keeps the evaluation order and the line structure of the file; the result is
@@ -213,6 +214,32 @@ func canonicaliseAPIs(fset *token.FileSet, pkgs []*packages.Package, overlay map
 					log = append(log, fmt.Sprintf("canonical form: return cmp.Or(errors...) -> first non-nil loop at %s", fset.Position(x.Pos())))
 					return false
 				case *ast.BinaryExpr:
+					// the constant of a comparison stands on the right: `nil == x`, `0 < n`, `io.EOF == err`
+					if mir, isCmp := map[token.Token]token.Token{token.EQL: token.EQL, token.NEQ: token.NEQ, token.LSS: token.GTR, token.GTR: token.LSS, token.LEQ: token.GEQ, token.GEQ: token.LEQ}[x.Op]; isCmp && !covered(x.Pos(), x.End()) {
+						rank := func(e ast.Expr) int {
+							e = ast.Unparen(e)
+							if tv, ok := info.Types[e]; ok && (tv.Value != nil || tv.IsNil()) {
+								return 2
+							}
+							if sel, ok := e.(*ast.SelectorExpr); ok {
+								if id, ok := sel.X.(*ast.Ident); ok {
+									if _, isPkg := info.Uses[id].(*types.PkgName); isPkg {
+										if _, isVar := info.Uses[sel.Sel].(*types.Var); isVar {
+											return 1 // a package-level variable of another package (io.EOF)
+										}
+									}
+								}
+							}
+							return 0
+						}
+						_, lcall := ast.Unparen(x.X).(*ast.CallExpr)
+						_, rcall := ast.Unparen(x.Y).(*ast.CallExpr)
+						if rank(x.X) > rank(x.Y) && !lcall && !rcall && nls(x.Pos(), x.End()) == 0 {
+							eds = append(eds, textEdit{off(x.Pos()), off(x.End()), text(x.Y.Pos(), x.Y.End()) + " " + mir.String() + " " + text(x.X.Pos(), x.X.End())})
+							log = append(log, fmt.Sprintf("canonical form: constant operand of %s moved to the right at %s", x.Op, fset.Position(x.Pos())))
+							return false
+						}
+					}
 					// bytes.Compare(a, b) == 0 / != 0 (either side)
 					if x.Op != token.EQL && x.Op != token.NEQ {
 						return true
